@@ -215,7 +215,9 @@ def rule_R4(ctx, R):
                 v = p.value
                 if p.kind != "ret" or not (v and v[0] == "agg" and v[2] == "std::result::Result" and v[3] == 1 and _count_op(v, oid) == 1):
                     continue
-                if val_contains(v, lambda x: x[0] == "op" and x[2] and x[2][0] == "assume"):
+                gids = [g for g, (r_, m_, status) in p.guards.items() if status == "live"]
+                if val_contains(v, lambda x: x[0] == "op" and ((x[2] and x[2][0] == "assume") or
+                                                                 any(x[1] == g or x[1].startswith(g + ".") for g in gids))):
                     continue     # the Err carries a guard (a poisoned acquisition): the hold lives on inside it
                 held = [r for r, m in p.locks.items() if m in ("W", "R") and any(e.get("recv") == r for e in p.ev("TRY", "ACQ"))]
                 if held:
